@@ -37,6 +37,21 @@ class Loop:
 
         class Rooted(StubSFTPServer):
             ROOT = root
+            unbuffered = False  # set per program by the harness before SFTPClient.open
+
+            def open(self, path, flags, attr):
+                fobj = StubSFTPServer.open(self, path, flags, attr)
+                if Rooted.unbuffered and hasattr(fobj, "readfile"):
+                    # same handle class, but the served file object is an unbuffered FileIO: no server-side
+                    # CPython read-ahead, so truncate-then-read is fully determined
+                    old = fobj.readfile
+                    raw = os.fdopen(os.dup(old.fileno()), old.mode, 0)
+                    old.close()
+                    fobj.readfile = raw
+                    fobj.writefile = raw
+                return fobj
+
+        self.server_class = Rooted
 
         a, b = LoopSocket(), LoopSocket()
         a.link(b)
@@ -168,10 +183,11 @@ def classify_real(e):
     return "X:" + core.exc_site(e)
 
 
-def run_remote(loop, name, mode, bufsize, pipelined, ops, maxreq=None):
+def run_remote(loop, name, mode, bufsize, pipelined, ops, maxreq=None, srv_unbuffered=False):
     """Open through SFTPClient.open and run the program; returns (open_token, tokens, file)."""
     from paramiko.sftp_file import SFTPFile
 
+    loop.server_class.unbuffered = srv_unbuffered
     try:
         f = loop.sftp.open("/" + name, mode, bufsize)
     except Exception as e:
@@ -219,7 +235,60 @@ def erase(tok):
     return tok
 
 
+def gen_disciplined(rng, big=False):
+    """Programs that stay clear of the listed API-convention findings: the path the refinement theorem covers."""
+    mode = rng.choice(["r", "r+", "w", "w+", "a", "a+", "wx", "w+x", "r+", "w+", "a+"])
+    bufsize = rng.choice([-1, 0, 1, 2, 3, 7, 64, 8192, rng.randrange(2, 65537)])
+    exists = "x" not in mode and (mode[0] != "r" or True) and rng.random() < (0.95 if "x" not in mode else 0.0)
+    if mode[0] == "r":
+        exists = True
+    n = rng.choice([0, 1, 3, 10, 40, rng.randrange(0, 120)]) if not big else rng.randrange(500, 3000)
+    init = bytes(rng.choice(ALPHA) for _ in range(n)) if exists else None
+    maxreq = rng.choice([None, None, 1, 2, 5, 16, 64]) if not big else rng.choice([64, 257, 1000])
+    can_read = "r" in mode or "+" in mode
+    can_write = mode != "r"
+    can_trunc = can_write and "a" not in mode and rng.random() < 0.4
+    srv_unbuffered = rng.random() < 0.5
+    did_read = False
+    ops = []
+    for _ in range(rng.randrange(1, 41)):
+        pool = ["s", "s", "ft"]
+        if can_read:
+            pool += ["r", "r", "l", "l", "L"]
+        if can_write:
+            pool += ["w", "w", "w", "f"]
+        if can_trunc and (srv_unbuffered or not did_read):
+            pool += ["T"]
+        k = rng.choice(pool)
+        small = rng.choice([0, 1, 2, 3, 5, 9, 30, rng.randrange(0, n + 20)])
+        if k == "r":
+            ops.append(("r", rng.choice([None, -1, small, small, small]))); did_read = True
+        elif k == "l":
+            ops.append(("l", rng.choice([None, -1, small, small]))); did_read = True
+        elif k == "L":
+            ops.append(("L", None)); did_read = True
+        elif k == "w":
+            ln = rng.choice([0, 1, 2, 5, 17, rng.randrange(0, 60)])
+            if big and rng.random() < 0.3:
+                ln = rng.randrange(100, 1500)
+            ops.append(("w", bytes(rng.choice(ALPHA) for _ in range(ln))))
+        elif k == "s":
+            ops.append(rng.choice([("s", small, 0), ("s", 0, 0), ("s", 0, 2), ("s", rng.randrange(0, 4), 2),
+                                   ("s", rng.randrange(0, 6), 1), ("s", 0, 1)]))
+        elif k == "ft":
+            ops.append(("f",)); ops.append(("t",))
+        elif k == "T":
+            ops.append(("T", rng.choice([0, small, n, n + rng.randrange(0, 9)])))
+        else:
+            ops.append((k,))
+    ops = ops[:40] + [("c",)]
+    return {"mode": mode, "bufsize": bufsize, "pipelined": rng.random() < 0.4, "init": init, "maxreq": maxreq,
+            "ops": ops, "disciplined": True, "srv_unbuffered": srv_unbuffered}
+
+
 def gen_program(rng, big=False):
+    if rng.random() < 0.5:
+        return gen_disciplined(rng, big)
     mode = rng.choice(MODES)
     bufsize = rng.choice([-1, 0, 1, 2, 3, 7, 64, 8192, rng.randrange(2, 65537)])
     pipelined = rng.random() < 0.4
@@ -264,4 +333,5 @@ def gen_program(rng, big=False):
         closed = closed or o[0] == "c"
         out.append(o)
     ops = out + [("c",)]
-    return {"mode": mode, "bufsize": bufsize, "pipelined": pipelined, "init": init, "maxreq": maxreq, "ops": ops}
+    return {"mode": mode, "bufsize": bufsize, "pipelined": pipelined, "init": init, "maxreq": maxreq, "ops": ops,
+            "srv_unbuffered": rng.random() < 0.5}
